@@ -176,8 +176,8 @@ Definition m_pwm_acc_len (size offset : Z) : Z := size - offset.       (* scores
         C13.fix-3.diff they are applied to `dense_rows_fixed rows`.  ONE-LINE SWITCHES: *)
 Definition dense_rows_pinned (rows : list (list Z)) : list (list Z) := [concat rows].
 Definition dense_rows_fixed (rows : list (list Z)) : list (list Z) := rows.
-Definition motif_dense_rows : list (list Z) -> list (list Z) := dense_rows_pinned.             (* fix-2 -> dense_rows_fixed *)
-Definition kmers_unencoded_dense_rows : list (list Z) -> list (list Z) := dense_rows_pinned.   (* fix-3 -> dense_rows_fixed *)
+Definition motif_dense_rows : list (list Z) -> list (list Z) := dense_rows_fixed.              (* fix-2 -> dense_rows_fixed *)
+Definition kmers_unencoded_dense_rows : list (list Z) -> list (list Z) := dense_rows_fixed.    (* fix-3 -> dense_rows_fixed *)
 
 (* ---- motif scores over any carrier with an addition (exact rationals Q, integers, ...): the same shifted
         accumulation loop; the Z-valued functions above are the instance used by the correspondence *)
